@@ -136,6 +136,12 @@ HAND = [
     "CCO>>CCOC(C)=O",
     "c1ccccc1>>Cc1ccccc1",
     "CC(=O)O>>CC(=O)OCC",
+    # nothing in common under any search condition
+    "C>>N",
+    "CCBr>>N",
+    "CCC>>OO",
+    "C1CC1>>[Na+].[Cl-]",
+    "CCCl>>S",
     # marker substrings inside given molecules / explicit H spellings
     "[H][H].CC=O>>CCO",
     "[H]C([H])([H])O.CC(=O)O>>COC(C)=O",
